@@ -233,7 +233,7 @@ def run(ctx, model=None):
     # "solving the same description again ... returns identical results": also when the process environment differs
     # between the two solves (decimal context, environment variables the solver turns out to read)
     _an.environment_independence(ctx, [gen.slow_cycle_game(_r) for _ in range(2)] + [gen.stopping_game(_r) for _ in range(4 if ctx.quick() else 60)] +
-                                 [gen.decimal_tie_game(_r)], "identical-in-another-process-environment")
+                                 [gen.decimal_tie_game(_r), gen.all_dead_game(_r)], "identical-in-another-process-environment")
     _an.described_at_solve_time(ctx, [gen.stopping_game(_r, extra_finals=0.25) for _ in range(4 if ctx.quick() else 60)],
                                 "same-object-solves-the-description-it-holds")
     rng = random.Random(ctx.seed * 15485863 + 10)
